@@ -12,7 +12,8 @@ def run_item(item):
     """item: {'type': 'block', 'spec': BlockSpec, 'reduction': bool} or {'type': 'model', 'spec': c09 params}"""
     if item['type'] == 'block':
         from harness import blocks
-        o, es, ex = blocks.solve(item['spec'], reduction=item['reduction'], steady=item.get('steady'))
+        o, es, ex = blocks.solve(item['spec'], reduction=item['reduction'], steady=item.get('steady'),
+                                 max_iter=item.get('max_iter'))
         return o, {k: list(v) for k, v in es.TimeSeries.items()}
     if item['type'] == 'econ':
         from harness import econ
